@@ -80,7 +80,16 @@ func isNotExist(err error) bool {
 	return os.IsNotExist(err) || errors.Is(err, syscall.ENOTDIR)
 }
 
+// hasNoFile reports whether an object name cannot be a file of this store: a name that ends in "/". Joining it
+// into a path drops the slash, so "a/b/" would resolve to the file of the object "a/b" (or to a directory).
+func hasNoFile(filename string) bool {
+	return strings.HasSuffix(filename, "/")
+}
+
 func (fs *filestore) GetMeta(baseUrl HttpBaseUrl, bucket string, filename string) (*storage.Object, error) {
+	if hasNoFile(filename) {
+		return nil, nil
+	}
 	f := fs.filename(bucket, filename)
 	fInfo, err := os.Stat(f)
 	if err != nil {
@@ -94,6 +103,9 @@ func (fs *filestore) GetMeta(baseUrl HttpBaseUrl, bucket string, filename string
 }
 
 func (fs *filestore) Add(bucket string, filename string, contents []byte, meta *storage.Object) error {
+	if hasNoFile(filename) {
+		return fmt.Errorf("could not write: %s/%s: the file store cannot hold an object name that ends in \"/\"", bucket, filename)
+	}
 	f := fs.filename(bucket, filename)
 	if err := os.MkdirAll(filepath.Dir(f), 0777); err != nil {
 		return fmt.Errorf("could not create dirs for:  %s: %w", f, err)
@@ -162,6 +174,9 @@ func (fs *filestore) Copy(srcBucket string, srcFile string, dstBucket string, ds
 }
 
 func (fs *filestore) Delete(bucket string, filename string) error {
+	if hasNoFile(filename) {
+		return os.ErrNotExist
+	}
 	f := fs.filename(bucket, filename)
 
 	err := func() error {
